@@ -221,13 +221,13 @@ def create_multi_block_mechanics_functions(functionSpace, mode2D, materialModels
 
     modify_element_gradient = grad_2D_to_3D
     if pressureProjectionDegree is not None:
-        masterJ = Interpolants.make_master_tri_element(degree=pressureProjectionDegree)
+        masterJ = Interpolants.make_parent_element_2d(degree=pressureProjectionDegree)
         xigauss = functionSpace.quadratureRule.xigauss
-        shapesJ = Interpolants.compute_shapes_on_tri(masterJ, xigauss)
+        shapesJ = Interpolants.compute_shapes(masterJ, xigauss).values
 
-        def modify_element_gradient(elemGrads, elemVols):
+        def modify_element_gradient(elemGrads, elemShapes, elemVols, elemNodalDisps, elemNodalCoords):
             elemGrads = volume_average_J_gradient_transformation(elemGrads, elemVols, shapesJ)
-            return grad_2D_to_3D(elemGrads, elemVols)
+            return grad_2D_to_3D(elemGrads, elemShapes, elemVols, elemNodalDisps, elemNodalCoords)
     
     
     def compute_strain_energy(U, stateVariables, dt=0.0):
@@ -279,9 +279,9 @@ def create_mechanics_functions(functionSpace, mode2D, materialModel,
 
     modify_element_gradient = grad_2D_to_3D
     if pressureProjectionDegree is not None:
-        masterJ = Interpolants.make_master_tri_element(degree=pressureProjectionDegree)
+        masterJ = Interpolants.make_parent_element_2d(degree=pressureProjectionDegree)
         xigauss = functionSpace.quadratureRule.xigauss
-        shapesJ = Interpolants.compute_shapes_on_tri(masterJ, xigauss)
+        shapesJ = Interpolants.compute_shapes(masterJ, xigauss).values
 
         def modify_element_gradient(elemGrads, elemShapes, elemVols, elemNodalDisps, elemNodalCoords):
             elemGrads = volume_average_J_gradient_transformation(elemGrads, elemVols, shapesJ)
@@ -391,17 +391,17 @@ def parse_2D_to_3D_gradient_transformation(mode2D):
     return grad_2D_to_3D
 
 
-def define_pressure_projection_gradient_tranformation(pressureProjectionDegree, modify_element_gradient):
+def define_pressure_projection_gradient_tranformation(functionSpace, pressureProjectionDegree, modify_element_gradient):
     if pressureProjectionDegree is not None:
-        masterJ = Interpolants.make_master_tri_element(degree=pressureProjectionDegree)
+        masterJ = Interpolants.make_parent_element_2d(degree=pressureProjectionDegree)
         xigauss = functionSpace.quadratureRule.xigauss
-        shapesJ = Interpolants.compute_shapes_on_tri(masterJ, xigauss)
+        shapesJ = Interpolants.compute_shapes(masterJ, xigauss).values
 
         def modify_element_gradient_with_pressure_projection(elemGrads, elemShapes, elemVols, elemNodalDisps, elemNodalCoords):
             elemGrads = volume_average_J_gradient_transformation(elemGrads, elemVols, shapesJ)
             return modify_element_gradient(elemGrads, elemShapes, elemVols, elemNodalDisps, elemNodalCoords)
 
-        modify_element_gradient = modify_element_gradient_with_pressure_projection
+        return modify_element_gradient_with_pressure_projection
         
     return modify_element_gradient
 
@@ -411,7 +411,7 @@ def create_dynamics_functions(functionSpace, mode2D, materialModel, newmarkParam
 
     modify_element_gradient = parse_2D_to_3D_gradient_transformation(mode2D)
     modify_element_gradient = define_pressure_projection_gradient_tranformation(
-        pressureProjectionDegree, modify_element_gradient)
+        functionSpace, pressureProjectionDegree, modify_element_gradient)
 
     def compute_algorithmic_energy(U, UPredicted, stateVariables, dt):
         return compute_newmark_lagrangian(functionSpace, U, UPredicted, stateVariables,
